@@ -6,6 +6,7 @@ import (
 	"bytes"
 	"context"
 	"fmt"
+	"os"
 	"sort"
 	"strings"
 	"testing"
@@ -40,17 +41,27 @@ func c11NewEnv(t *testing.T) *c11Env {
 		t.Fatalf("sync fn: %v", err)
 	}
 	e := &c11Env{t: t, ctx: ctx, db: db, col: col, rawC: col.dataStore, rawM: db.MetadataStore}
-	e.fs = &vFaultStore{DataStore: col.dataStore, readFaults: true, onlyGoroutine: vGoID()}
+	e.fs = &vFaultStore{DataStore: col.dataStore, readFaults: true, onlyGoroutine: vGoID(), noteAttempts: true}
 	col.dataStore = e.fs
 	e.ms = &vFaultStore{DataStore: db.MetadataStore, readFaults: true, onlyGoroutine: vGoID()}
 	db.MetadataStore = e.ms
 	db.sequences.datastore = e.ms
 	db.sequences.releaseSequenceWait = time.Hour
+	// rosmar reports cross-cluster versioning as enabled, which switches the obsolete-attachment sweep off; the
+	// flag is what updateAndReturnDoc consults (as the C14 harness does)
+	db.CachedCCVEnabled.Store(false)
 	return e
 }
 
-// raw read of a key from both stores: value + sync/vv/mou xattrs (bytes) + cas; "" when absent
-func (e *c11Env) rawState(keys []string) map[string]string {
+// raw read of a key from both stores: value + sync/vv/mou xattrs (bytes) + cas; "" when absent.
+// noCas: leave the CAS out (CAS-retry kinds: the competing touch that forces the retry changes it)
+func (e *c11Env) rawState(keys []string, noCas bool) map[string]string {
+	casOf := func(c uint64) uint64 {
+		if noCas {
+			return 0
+		}
+		return c
+	}
 	out := map[string]string{}
 	for _, k := range keys {
 		for name, ds := range map[string]base.DataStore{"C": e.rawC, "M": e.rawM} {
@@ -62,7 +73,7 @@ func (e *c11Env) rawState(keys []string) map[string]string {
 					out[name+":"+k] = ""
 					continue
 				}
-				out[name+":"+k] = fmt.Sprintf("cas=%d v=%s", c2, rv)
+				out[name+":"+k] = fmt.Sprintf("cas=%d v=%s", casOf(c2), rv)
 				continue
 			}
 			var xk []string
@@ -71,7 +82,7 @@ func (e *c11Env) rawState(keys []string) map[string]string {
 			}
 			sort.Strings(xk)
 			var b bytes.Buffer
-			fmt.Fprintf(&b, "cas=%d v=%s", cas, v)
+			fmt.Fprintf(&b, "cas=%d v=%s", casOf(cas), v)
 			for _, x := range xk {
 				fmt.Fprintf(&b, " %s=%s", x, xs[x])
 			}
@@ -83,18 +94,66 @@ func (e *c11Env) rawState(keys []string) map[string]string {
 
 type c11Req struct {
 	kind    string
-	setup   func(e *c11Env, id string)               // un-faulted preparation of the pre-state
-	run     func(e *c11Env, id string) error         // the request under test
-	primary func(e *c11Env, id string) []string      // keys whose state must be all-or-nothing
+	setup   func(e *c11Env, id string)                // un-faulted preparation of the pre-state
+	run     func(e *c11Env, id string) error          // the request under test
+	primary func(e *c11Env, id string) []string       // keys whose state must be all-or-nothing
 	done    func(e *c11Env, id string) (bool, string) // is the request's effect visible to a subsequent read?
+
+	// ---- requests with several commits (sub-requests) ----
+	subs     int                                              // number of sub-requests (0 = 1)
+	cont     bool                                             // a failed sub-request does not stop the following ones (bulk); else it aborts them
+	runN     func(e *c11Env, id string) []error               // cont: one result per sub-request
+	primaryN func(e *c11Env, id string, i int) []string       // keys of sub-request i
+	doneN    func(e *c11Env, id string, i int) (bool, string) // effect of sub-request i visible?
+	intactN  func(e *c11Env, id string, i int) bool           // abort mode, i>0: exactly the commits before i happened, nothing else
+	// ---- follow-ups that are part of the visible effect ----
+	core func(e *c11Env, id string) bool // the commit itself is visible (done = commit AND required follow-up effect)
+	// ---- CAS retry inside the request ----
+	hook  func(e *c11Env, id string) func(key string, n int, cbErr error) error
+	noCas bool
 }
 
-func c11Class(op, key string) string {
+func (rq *c11Req) nsubs() int {
+	if rq.subs > 1 {
+		return rq.subs
+	}
+	return 1
+}
+func (rq *c11Req) keysOf(e *c11Env, id string, i int) []string {
+	if rq.primaryN != nil {
+		return rq.primaryN(e, id, i)
+	}
+	return rq.primary(e, id)
+}
+func (rq *c11Req) doneOf(e *c11Env, id string, i int) (bool, string) {
+	if rq.doneN != nil {
+		return rq.doneN(e, id, i)
+	}
+	return rq.done(e, id)
+}
+
+// results: one per sub-request for cont requests, otherwise the single result of the request
+func (rq *c11Req) exec(e *c11Env, id string) []error {
+	if rq.runN != nil {
+		return rq.runN(e, id)
+	}
+	return []error{rq.run(e, id)}
+}
+
+// afterDocCommit: a document commit of the same sub-request precedes the operation
+func c11Class(op, key string, afterDocCommit bool) string {
 	switch {
 	case strings.HasPrefix(op, "Get"):
 		return "Read"
-	case op == "Update" && (strings.Contains(key, "_sync:user") || strings.Contains(key, "_sync:role")):
+	case (op == "Update" || op == "SubdocInsert") && (strings.Contains(key, "_sync:user") || strings.Contains(key, "_sync:role")):
+		if afterDocCommit {
+			// MarkPrincipalsChanged: the invalidation of a principal whose access the committed revision changed.
+			// Its failure is logged and swallowed although the access change is part of the write's visible effect.
+			return "Inval"
+		}
 		return "Read" // loading a principal refreshes its computed channels in place (idempotent read-repair)
+	case op == "WriteUpdateWithXattrs":
+		return "Aux" // entering the write: a failure aborts the request before anything happened
 	case strings.Contains(key, "_sync:rev:"):
 		return "Opt" // temporary backup of the superseded revision body: best effort by design
 	case strings.Contains(key, "unusedSeq"):
@@ -130,8 +189,11 @@ func c11Requests() []c11Req {
 	}
 	return []c11Req{
 		{kind: "doc_create",
-			setup:   func(e *c11Env, id string) {},
-			run:     func(e *c11Env, id string) error { _, _, err := e.put(id, Body{"v": 1, "channels": []string{"a"}}); return err },
+			setup: func(e *c11Env, id string) {},
+			run: func(e *c11Env, id string) error {
+				_, _, err := e.put(id, Body{"v": 1, "channels": []string{"a"}})
+				return err
+			},
 			primary: docKey,
 			done: func(e *c11Env, id string) (bool, string) {
 				_, b := curRev(e, id)
@@ -162,7 +224,7 @@ func c11Requests() []c11Req {
 				return err == nil && doc != nil && doc.IsDeleted(), ""
 			}},
 		{kind: "doc_rejected",
-			setup:   func(e *c11Env, id string) { _, _, _ = e.put(id, Body{"v": 1, "channels": []string{"a"}}) },
+			setup: func(e *c11Env, id string) { _, _, _ = e.put(id, Body{"v": 1, "channels": []string{"a"}}) },
 			run: func(e *c11Env, id string) error {
 				rev, _ := curRev(e, id)
 				_, _, err := e.put(id, Body{"v": 2, "reject": true, BodyRev: rev})
@@ -218,6 +280,10 @@ func c11Requests() []c11Req {
 				return err
 			},
 			primary: userKeys,
+			core: func(e *c11Env, id string) bool {
+				_, b := curRev(e, id)
+				return b != nil && fmt.Sprint(b["v"]) == "1"
+			},
 			done: func(e *c11Env, id string) (bool, string) {
 				u, err := e.db.Authenticator(e.ctx).GetUser("u" + id)
 				if err != nil || u == nil {
@@ -344,6 +410,513 @@ func c11Requests() []c11Req {
 }
 
 var c11Sessions = map[string]string{}
+var c11Revs = map[string]string{} // revision created by a request's setup (read without triggering an import)
+
+// ---- raw (un-faulted, import-free) view of a document ----
+
+func (e *c11Env) rawDoc(id string) (doc *Document, body []byte, ok bool) {
+	v, xs, cas, err := e.rawC.GetWithXattrs(e.ctx, id, []string{base.SyncXattrName, base.VvXattrName, base.MouXattrName, base.GlobalXattrName})
+	if err != nil {
+		return nil, nil, false
+	}
+	d, err := e.col.unmarshalDocumentWithXattrs(e.ctx, id, v, xs, cas, DocUnmarshalAll)
+	if err != nil || d == nil {
+		return nil, v, false
+	}
+	return d, v, true
+}
+
+// the bucket document is known to the gateway in its present version (its latest mutation has been imported or is
+// the gateway's own); revs = number of revisions in its tree
+func (e *c11Env) rawImported(id string) (imported bool, revs int, doc *Document) {
+	d, v, ok := e.rawDoc(id)
+	if !ok || !d.HasValidSyncData() {
+		return false, 0, d
+	}
+	sg, _, _ := d.IsSGWrite(e.ctx, v)
+	return sg, len(d.History), d
+}
+
+// a leaf revision whose body has v == want, read through the collection (only call when the document is imported)
+func (e *c11Env) leafWithV(id string, want string) bool {
+	d, _, ok := e.rawDoc(id)
+	if !ok {
+		return false
+	}
+	for _, leaf := range d.History.GetLeaves() {
+		b, err := e.col.Get1xRevBody(e.ctx, id, leaf, false, nil)
+		if err == nil && fmt.Sprint(b["v"]) == want {
+			return true
+		}
+	}
+	return false
+}
+
+func (e *c11Env) externalWrite(id string, body string) {
+	if _, _, err := e.rawC.GetRaw(e.ctx, id); err != nil {
+		if _, err := e.rawC.WriteCas(e.ctx, id, 0, 0, []byte(body), sgbucket.Raw); err != nil {
+			e.t.Fatalf("external insert: %v", err)
+		}
+		return
+	}
+	if err := e.rawC.SetRaw(e.ctx, id, 0, nil, []byte(body)); err != nil {
+		e.t.Fatalf("external update: %v", err)
+	}
+}
+
+// the request kinds added by the deepening round: imports, session delete / one-time use, user updates,
+// attachment replace / remove, access revocation, bulk writes, CAS retry inside a request
+func c11RequestsDeep() []c11Req {
+	docKey := func(e *c11Env, id string) []string { return []string{id} }
+	userKeys := func(e *c11Env, id string) []string {
+		a := e.db.Authenticator(e.ctx)
+		return []string{a.DocIDForUser("u" + id), a.DocIDForRole("r" + id), id}
+	}
+	curRev := func(e *c11Env, id string) (string, Body) {
+		doc, err := e.col.GetDocument(e.ctx, id, DocUnmarshalAll)
+		if err != nil || doc == nil {
+			return "", nil
+		}
+		b, _ := e.col.Get1xBody(e.ctx, id)
+		return doc.GetRevTreeID(), b
+	}
+	admin := func(e *c11Env) *DatabaseCollectionWithUser {
+		return &DatabaseCollectionWithUser{DatabaseCollection: e.col.DatabaseCollection, user: nil}
+	}
+	helloKey := func(id string) string {
+		return MakeAttachmentKey(AttVersion2, id, Sha1DigestKey([]byte("hello world")))
+	}
+	attKeys := func(e *c11Env, id string) []string { return []string{id, helloKey(id)} }
+	withAtt := func(e *c11Env, id string) {
+		_, _, _ = e.put(id, Body{"v": 1, "channels": []string{"a"}})
+		rev, _ := curRev(e, id)
+		_, _, _ = e.put(id, Body{"v": 2, "channels": []string{"a"}, BodyRev: rev,
+			BodyAttachments: map[string]any{"att.txt": map[string]any{"data": "aGVsbG8gd29ybGQ=", "content_type": "text/plain"}}})
+	}
+	mkUser := func(e *c11Env, id string) {
+		_, _, _ = e.db.UpdatePrincipal(e.ctx, &auth.PrincipalConfig{Name: base.Ptr("u" + id), Password: base.Ptr("letmein"), ExplicitChannels: base.SetOf("x")}, true, true)
+	}
+	getUser := func(e *c11Env, id string) auth.User {
+		u, err := e.db.Authenticator(e.ctx).GetUser("u" + id)
+		if err != nil {
+			return nil
+		}
+		return u
+	}
+	hasGranted := func(e *c11Env, id string) (bool, string) {
+		u := getUser(e, id)
+		if u == nil {
+			return false, "no user"
+		}
+		ch, err := u.InheritedCollectionChannels(e.col.ScopeName, e.col.Name)
+		return err == nil && ch.Contains("granted"), fmt.Sprint(ch)
+	}
+	// force exactly one CAS retry of the document write: a competing raw touch (an unrelated xattr) between the
+	// first attempt's update callback and its compare-and-swap write
+	touchOnce := func(e *c11Env, id string) func(key string, n int, cbErr error) error {
+		fired := false
+		return func(key string, n int, cbErr error) error {
+			if key != id || fired || cbErr != nil {
+				return nil
+			}
+			fired = true
+			if _, err := e.rawC.SetXattrs(e.ctx, id, map[string][]byte{"verifx": []byte(`{"n":1}`)}); err != nil {
+				e.t.Fatalf("touch: %v", err)
+			}
+			return nil
+		}
+	}
+	// import before write: sub-request 0 = the import of the external body v=5 (a second revision), sub-request 1 =
+	// the client's revision v=2 (a third revision)
+	importThenDone := func(e *c11Env, id string, i int) (bool, string) {
+		imp, revs, _ := e.rawImported(id)
+		if !imp {
+			return false, "not imported"
+		}
+		if i == 0 {
+			return revs >= 2 && e.leafWithV(id, "5"), fmt.Sprint(revs)
+		}
+		return revs == 3 && e.leafWithV(id, "2"), fmt.Sprint(revs)
+	}
+	importThenIntact := func(e *c11Env, id string, i int) bool {
+		imp, revs, _ := e.rawImported(id)
+		return imp && revs == 2 && e.leafWithV(id, "5") && !e.leafWithV(id, "2")
+	}
+	return []c11Req{
+		// ---- (a) imports ----
+		{kind: "import_get_new",
+			setup: func(e *c11Env, id string) { e.externalWrite(id, `{"v":5,"channels":["a"]}`) },
+			run: func(e *c11Env, id string) error {
+				_, err := e.col.GetDocument(e.ctx, id, DocUnmarshalAll)
+				return err
+			},
+			primary: docKey,
+			done: func(e *c11Env, id string) (bool, string) {
+				imp, revs, _ := e.rawImported(id)
+				return imp && revs == 1, fmt.Sprint(imp, revs)
+			}},
+		{kind: "import_get_update",
+			setup: func(e *c11Env, id string) {
+				_, _, _ = e.put(id, Body{"v": 1, "channels": []string{"a"}})
+				e.externalWrite(id, `{"v":5,"channels":["b"]}`)
+			},
+			run: func(e *c11Env, id string) error {
+				_, err := e.col.GetDocument(e.ctx, id, DocUnmarshalAll)
+				return err
+			},
+			primary: docKey,
+			done: func(e *c11Env, id string) (bool, string) {
+				imp, revs, d := e.rawImported(id)
+				return imp && revs == 2 && d.Channels["b"] == nil && d.Channels["a"] != nil, fmt.Sprint(imp, revs)
+			}},
+		{kind: "import_feed_raw",
+			setup: func(e *c11Env, id string) { e.externalWrite(id, `{"v":5,"channels":["a"]}`) },
+			run: func(e *c11Env, id string) error {
+				// what the import listener does with a feed event: the mutation's value, xattrs and CAS come with the event
+				v, xs, cas, err := e.rawC.GetWithXattrs(e.ctx, id, []string{base.SyncXattrName, base.VvXattrName, base.MouXattrName, base.GlobalXattrName})
+				if err != nil {
+					return err
+				}
+				_, err = admin(e).ImportDocRaw(e.ctx, id, v, xs, importDocOptions{mode: ImportFromFeed, isDelete: false, revSeqNo: 1}, cas)
+				return err
+			},
+			primary: docKey,
+			done: func(e *c11Env, id string) (bool, string) {
+				imp, revs, _ := e.rawImported(id)
+				return imp && revs == 1, fmt.Sprint(imp, revs)
+			}},
+		// a client write on top of an external write it has not seen: the document is imported first (a commit of its
+		// own, made by a write nested in the client write's update callback), the client write's first attempt then
+		// loses its CAS race against that import and the second attempt is decided on the imported document:
+		// a REST PUT naming the pre-import revision is a conflict (rejected: the request has ONE commit, the import's)
+		{kind: "import_then_put_conflict", subs: 2,
+			setup: func(e *c11Env, id string) {
+				rev, _, _ := e.put(id, Body{"v": 1, "channels": []string{"a"}})
+				c11Revs[id] = rev
+				e.externalWrite(id, `{"v":5,"channels":["a"]}`)
+			},
+			run: func(e *c11Env, id string) error {
+				_, _, err := e.put(id, Body{"v": 2, "channels": []string{"a"}, BodyRev: c11Revs[id]})
+				return err
+			},
+			primaryN: func(e *c11Env, id string, i int) []string { return []string{id} },
+			doneN:    importThenDone,
+			intactN:  importThenIntact},
+		// ... a pushed revision (new_edits=false) with the pre-import revision as parent is accepted as a second
+		// branch: TWO commits
+		{kind: "import_then_push", subs: 2,
+			setup: func(e *c11Env, id string) {
+				rev, _, _ := e.put(id, Body{"v": 1, "channels": []string{"a"}})
+				c11Revs[id] = rev
+				e.externalWrite(id, `{"v":5,"channels":["a"]}`)
+			},
+			run: func(e *c11Env, id string) error {
+				_, _, err := e.col.PutExistingRevWithBody(e.ctx, id, Body{"v": 2, "channels": []string{"a"}}, []string{"2-0000000000000000000000000000c0de", c11Revs[id]}, false, ExistingVersionWithUpdateToHLV)
+				return err
+			},
+			primaryN: func(e *c11Env, id string, i int) []string { return []string{id} },
+			doneN:    importThenDone,
+			intactN:  importThenIntact},
+		// ---- (b) sessions ----
+		{kind: "session_delete",
+			setup: func(e *c11Env, id string) {
+				mkUser(e, id)
+				a := e.db.Authenticator(e.ctx)
+				if s, err := a.CreateSession(e.ctx, getUser(e, id), time.Hour, false); err == nil {
+					c11Sessions[id] = s.ID
+				}
+			},
+			run: func(e *c11Env, id string) error {
+				return e.db.Authenticator(e.ctx).DeleteSession(e.ctx, c11Sessions[id], "u"+id)
+			},
+			primary: func(e *c11Env, id string) []string {
+				return []string{e.db.Authenticator(e.ctx).DocIDForSession(c11Sessions[id])}
+			},
+			done: func(e *c11Env, id string) (bool, string) {
+				_, _, err := e.db.Authenticator(e.ctx).GetSession(c11Sessions[id])
+				return base.IsDocNotFoundError(err), fmt.Sprint(err)
+			}},
+		{kind: "session_one_time_use",
+			setup: func(e *c11Env, id string) {
+				mkUser(e, id)
+				a := e.db.Authenticator(e.ctx)
+				if s, err := a.CreateSession(e.ctx, getUser(e, id), time.Hour, true); err == nil {
+					c11Sessions[id] = s.ID
+				}
+			},
+			run: func(e *c11Env, id string) error {
+				u, err := e.db.Authenticator(e.ctx).AuthenticateOneTimeSession(e.ctx, c11Sessions[id])
+				if err == nil && (u == nil || u.Name() != "u"+id) {
+					return fmt.Errorf("one-time session authenticated the wrong user")
+				}
+				return err
+			},
+			primary: func(e *c11Env, id string) []string {
+				return []string{e.db.Authenticator(e.ctx).DocIDForSession(c11Sessions[id])}
+			},
+			done: func(e *c11Env, id string) (bool, string) {
+				_, _, err := e.db.Authenticator(e.ctx).GetSession(c11Sessions[id])
+				return base.IsDocNotFoundError(err), fmt.Sprint(err)
+			}},
+		// ---- (c) user updates ----
+		{kind: "user_update_password",
+			setup: mkUser,
+			run: func(e *c11Env, id string) error {
+				_, _, err := e.db.UpdatePrincipal(e.ctx, &auth.PrincipalConfig{Name: base.Ptr("u" + id), Password: base.Ptr("changed1")}, true, true)
+				return err
+			},
+			primary: userKeys,
+			done: func(e *c11Env, id string) (bool, string) {
+				u := getUser(e, id)
+				return u != nil && u.Authenticate("changed1") && !u.Authenticate("letmein"), ""
+			}},
+		{kind: "user_update_roles",
+			setup: func(e *c11Env, id string) {
+				mkUser(e, id)
+				_, _, _ = e.db.UpdatePrincipal(e.ctx, &auth.PrincipalConfig{Name: base.Ptr("r" + id), ExplicitChannels: base.SetOf("rc")}, false, true)
+			},
+			run: func(e *c11Env, id string) error {
+				_, _, err := e.db.UpdatePrincipal(e.ctx, &auth.PrincipalConfig{Name: base.Ptr("u" + id), ExplicitRoleNames: base.SetOf("r" + id)}, true, true)
+				return err
+			},
+			primary: func(e *c11Env, id string) []string { return []string{e.db.Authenticator(e.ctx).DocIDForUser("u" + id)} },
+			done: func(e *c11Env, id string) (bool, string) {
+				u := getUser(e, id)
+				if u == nil {
+					return false, "no user"
+				}
+				ch, err := u.InheritedCollectionChannels(e.col.ScopeName, e.col.Name)
+				_ = ch
+				return err == nil && u.RoleNames().Contains("r"+id), fmt.Sprint(u.RoleNames(), ch)
+			}},
+		{kind: "user_disable",
+			setup: mkUser,
+			run: func(e *c11Env, id string) error {
+				_, _, err := e.db.UpdatePrincipal(e.ctx, &auth.PrincipalConfig{Name: base.Ptr("u" + id), Disabled: base.Ptr(true)}, true, true)
+				return err
+			},
+			primary: userKeys,
+			done: func(e *c11Env, id string) (bool, string) {
+				u := getUser(e, id)
+				return u != nil && u.Disabled() && !u.Authenticate("letmein"), ""
+			}},
+		// ---- (d) attachments: replace / remove (the obsolete attachment is swept after the commit) ----
+		{kind: "attachment_replace",
+			setup: withAtt,
+			run: func(e *c11Env, id string) error {
+				rev, _ := curRev(e, id)
+				_, _, err := e.put(id, Body{"v": 3, "channels": []string{"a"}, BodyRev: rev,
+					BodyAttachments: map[string]any{"att.txt": map[string]any{"data": "Z29vZGJ5ZQ==", "content_type": "text/plain"}}})
+				return err
+			},
+			primary: attKeys,
+			done: func(e *c11Env, id string) (bool, string) {
+				doc, err := e.col.GetDocument(e.ctx, id, DocUnmarshalAll)
+				if err != nil || doc == nil {
+					return false, "no doc"
+				}
+				meta, ok := doc.Attachments()["att.txt"].(map[string]any)
+				if !ok {
+					return false, "no attachment metadata"
+				}
+				dg, _ := meta["digest"].(string)
+				data, err := e.col.GetAttachment(e.ctx, MakeAttachmentKey(AttVersion2, id, dg))
+				if err != nil {
+					return false, "attachment data unreadable: " + err.Error()
+				}
+				return string(data) == "goodbye", string(data)
+			}},
+		{kind: "attachment_remove",
+			setup: withAtt,
+			run: func(e *c11Env, id string) error {
+				rev, _ := curRev(e, id)
+				_, _, err := e.put(id, Body{"v": 3, "channels": []string{"a"}, BodyRev: rev})
+				return err
+			},
+			primary: attKeys,
+			done: func(e *c11Env, id string) (bool, string) {
+				doc, err := e.col.GetDocument(e.ctx, id, DocUnmarshalAll)
+				if err != nil || doc == nil {
+					return false, "no doc"
+				}
+				_, b := curRev(e, id)
+				return len(doc.Attachments()) == 0 && b != nil && fmt.Sprint(b["v"]) == "3", fmt.Sprint(doc.Attachments())
+			}},
+		// ---- (e) a document update that revokes access ----
+		{kind: "doc_revoke_access",
+			setup: func(e *c11Env, id string) {
+				mkUser(e, id)
+				_, _, _ = e.put(id, Body{"v": 1, "channels": []string{"a"}, "grant": "u" + id})
+				if ok, det := hasGranted(e, id); !ok { // loads the user: its computed channels are stored
+					e.t.Fatalf("doc_revoke_access setup: grant not effective: %s", det)
+				}
+			},
+			run: func(e *c11Env, id string) error {
+				rev, _ := curRev(e, id)
+				_, _, err := e.put(id, Body{"v": 2, "channels": []string{"a"}, BodyRev: rev})
+				return err
+			},
+			primary: userKeys,
+			core: func(e *c11Env, id string) bool {
+				_, b := curRev(e, id)
+				return b != nil && fmt.Sprint(b["v"]) == "2"
+			},
+			done: func(e *c11Env, id string) (bool, string) {
+				_, b := curRev(e, id)
+				g, det := hasGranted(e, id)
+				return b != nil && fmt.Sprint(b["v"]) == "2" && !g, det
+			}},
+		// ---- (f) bulk write of two documents (what handleBulkDocs does: one Put per document, each with its own status) ----
+		{kind: "bulk_two_docs", subs: 2, cont: true,
+			setup: func(e *c11Env, id string) { _, _, _ = e.put(id, Body{"v": 1, "channels": []string{"a"}}) },
+			runN: func(e *c11Env, id string) []error {
+				rev, _ := curRev(e, id)
+				e.mark("~sub0")
+				_, _, err1 := e.put(id, Body{"v": 2, "channels": []string{"b"}, BodyRev: rev})
+				e.mark("~sub")
+				_, _, err2 := e.put(id+".2", Body{"v": 7, "channels": []string{"a"}})
+				return []error{err1, err2}
+			},
+			primaryN: func(e *c11Env, id string, i int) []string { return []string{[]string{id, id + ".2"}[i]} },
+			doneN: func(e *c11Env, id string, i int) (bool, string) {
+				_, b := curRev(e, []string{id, id + ".2"}[i])
+				return b != nil && fmt.Sprint(b["v"]) == []string{"2", "7"}[i], fmt.Sprint(b)
+			}},
+		{kind: "bulk_rejected_then_ok", subs: 2, cont: true,
+			setup: func(e *c11Env, id string) {},
+			runN: func(e *c11Env, id string) []error {
+				e.mark("~sub0")
+				_, _, err1 := e.put(id, Body{"v": 2, "reject": true})
+				e.mark("~sub")
+				_, _, err2 := e.put(id+".2", Body{"v": 7, "channels": []string{"a"}})
+				return []error{err1, err2}
+			},
+			primaryN: func(e *c11Env, id string, i int) []string { return []string{[]string{id, id + ".2"}[i]} },
+			doneN: func(e *c11Env, id string, i int) (bool, string) {
+				_, b := curRev(e, []string{id, id + ".2"}[i])
+				return b != nil && fmt.Sprint(b["v"]) == []string{"2", "7"}[i], fmt.Sprint(b)
+			}},
+		// ---- (g) CAS retry inside the request ----
+		{kind: "doc_update_cas_retry", noCas: true, hook: touchOnce,
+			setup: func(e *c11Env, id string) { _, _, _ = e.put(id, Body{"v": 1, "channels": []string{"a"}}) },
+			run: func(e *c11Env, id string) error {
+				rev, _ := curRev(e, id)
+				_, _, err := e.put(id, Body{"v": 2, "channels": []string{"b"}, BodyRev: rev})
+				return err
+			},
+			primary: docKey,
+			done: func(e *c11Env, id string) (bool, string) {
+				_, b := curRev(e, id)
+				return b != nil && fmt.Sprint(b["v"]) == "2", fmt.Sprint(b)
+			}},
+		{kind: "attachment_write_cas_retry", noCas: true, hook: touchOnce,
+			setup: func(e *c11Env, id string) { _, _, _ = e.put(id, Body{"v": 1, "channels": []string{"a"}}) },
+			run: func(e *c11Env, id string) error {
+				rev, _ := curRev(e, id)
+				_, _, err := e.put(id, Body{"v": 2, "channels": []string{"a"}, BodyRev: rev,
+					BodyAttachments: map[string]any{"att.txt": map[string]any{"data": "aGVsbG8gd29ybGQ=", "content_type": "text/plain"}}})
+				return err
+			},
+			primary: docKey,
+			done: func(e *c11Env, id string) (bool, string) {
+				doc, err := e.col.GetDocument(e.ctx, id, DocUnmarshalAll)
+				if err != nil || doc == nil {
+					return false, "no doc"
+				}
+				if _, ok := doc.Attachments()["att.txt"].(map[string]any); !ok {
+					return false, "no attachment metadata"
+				}
+				data, err := e.col.GetAttachment(e.ctx, helloKey(id))
+				if err != nil {
+					return false, "attachment data unreadable: " + err.Error()
+				}
+				return string(data) == "hello world", string(data)
+			}},
+	}
+}
+
+// trace-only marker emitted by the harness itself (sub-request boundaries of a bulk write)
+func (e *c11Env) mark(m string) {
+	e.fs.mu.Lock()
+	om := e.fs.onMark
+	e.fs.mu.Unlock()
+	if om != nil {
+		om(m)
+	}
+}
+
+// c11Shape: the operation classes of a marked trace and the sub-request of every operation.
+// The storage operations appear in program order.  A document write is: "WriteUpdateWithXattrs key" (entering the
+// call: Aux), the operations of each attempt's update callback, "WriteAttempt key" for each attempt whose callback
+// succeeded (the compare-and-swap write: the LAST one of a call is the Commit, earlier ones lost their CAS race: Aux)
+// and the end marker.  A write nested in another write's callback on the same key (import before write) is a
+// sub-request of its own; "~sub" markers separate the documents of a bulk write.
+func c11Shape(marked []string) (classes []string, subOf []int, nsub int) {
+	type open struct {
+		key      string
+		attempts []int
+	}
+	var stack []open
+	sub := 0
+	committed := false // a document commit of the current sub-request has happened
+	for _, m := range marked {
+		if m == "~sub0" {
+			// start of the first sub-request of a bulk write: what precedes is the request's preparation
+			continue
+		}
+		if m == "~sub" {
+			sub++
+			committed = false
+			continue
+		}
+		if strings.HasPrefix(m, "~end ") || strings.HasPrefix(m, "~fail ") {
+			if len(stack) == 0 {
+				continue
+			}
+			top := stack[len(stack)-1]
+			stack = stack[:len(stack)-1]
+			if n := len(top.attempts); n > 0 && strings.HasPrefix(m, "~end ") {
+				classes[top.attempts[n-1]] = "Commit"
+				committed = true
+				if len(stack) > 0 {
+					sub++
+					committed = false
+				}
+			}
+			continue
+		}
+		parts := strings.SplitN(m, " ", 2)
+		idx := len(classes)
+		subOf = append(subOf, sub)
+		switch parts[0] {
+		case "WriteUpdateWithXattrs":
+			stack = append(stack, open{key: parts[1]})
+			classes = append(classes, "Aux")
+		case "WriteAttempt":
+			if len(stack) > 0 {
+				stack[len(stack)-1].attempts = append(stack[len(stack)-1].attempts, idx)
+			}
+			classes = append(classes, "Aux")
+		default:
+			classes = append(classes, c11Class(parts[0], parts[1], committed))
+		}
+	}
+	return classes, subOf, sub + 1
+}
+
+// sequences carried by the stored documents (current + recent): they are in use, not leaked
+func (e *c11Env) seqsOnDocs(keys []string) map[uint64]bool {
+	used := map[uint64]bool{}
+	for _, k := range keys {
+		if d, _, ok := e.rawDoc(k); ok && d.HasValidSyncData() {
+			used[d.Sequence] = true
+			for _, s := range d.RecentSequences {
+				used[s] = true
+			}
+		}
+	}
+	return used
+}
 
 func TestVerifC11(t *testing.T) {
 	rec := vNewRecorder(t, "C11", "C11.C11_Corr")
@@ -388,80 +961,114 @@ func TestVerifC11(t *testing.T) {
 		e.ms.failOp = f
 		e.ms.mu.Unlock()
 	}
+	setHook := func(h func(key string, n int, cbErr error) error) {
+		e.fs.mu.Lock()
+		e.fs.onAttempt = h
+		e.fs.mu.Unlock()
+	}
 	modes := []string{"error", "timeout"}
-	for _, rq := range c11Requests() {
+	resName := map[bool]string{true: "RErr", false: "ROk"}
+	stName := map[string]string{"unchanged": "SUnchanged", "committed": "SCommitted", "lost": "SLost", "other": "SOther"}
+	kinds := append(c11Requests(), c11RequestsDeep()...)
+	rec.Extra("request_kinds", len(kinds))
+	for ri := range kinds {
+		rq := &kinds[ri]
+		if only := os.Getenv("C11_ONLY"); only != "" && !strings.Contains(","+only+",", ","+rq.kind+",") {
+			continue
+		}
+		nsub := rq.nsubs()
+		multi := nsub > 1
 		// ---- clean run: the storage-operation trace ----
 		e.n++
 		id := fmt.Sprintf("c11%s%d", rq.kind, e.n)
 		rq.setup(e, id)
 		var trace []string
-		var tmu = &e.fs.mu
-		_ = tmu
-		var marked []string // trace with "~end" markers
+		var marked []string // trace with markers
+		started := !rq.cont // bulk: the operations before the first document's write are preparation, not traced
 		collect := func(op, key string) error {
-			if strings.Contains(key, "_sync:seq") {
+			if strings.Contains(key, "_sync:seq") || !started {
 				return nil
 			}
 			trace = append(trace, op+" "+key)
 			marked = append(marked, op+" "+key)
 			return nil
 		}
-		e.fs.onMark = func(m string) { marked = append(marked, m) }
+		e.fs.onMark = func(m string) {
+			if m == "~sub0" {
+				started = true
+			}
+			marked = append(marked, m)
+		}
 		e.ms.onMark = e.fs.onMark
 		setFail(collect)
+		if rq.hook != nil {
+			setHook(rq.hook(e, id))
+		}
 		base0 := e.db.sequences.last
 		e.ms.takeReleased()
-		cleanErr := rq.run(e, id)
+		cleanErrs := rq.exec(e, id)
 		setFail(nil)
+		setHook(nil)
 		e.fs.onMark, e.ms.onMark = nil, nil
-		okClean, detail := rq.done(e, id)
-		expectSuccess := rq.kind != "doc_rejected"
-		if expectSuccess && (cleanErr != nil || !okClean) {
-			rec.Fail("reported_success_durable", "clean-run-not-visible", map[string]any{"kind": rq.kind, "err": fmt.Sprint(cleanErr), "detail": detail}, "un-faulted request did not succeed or is not visible")
-		}
-		c11Account(rec, e, rq.kind, "clean", -1, base0, cleanErr)
-		// Operations issued inside a WriteUpdateWithXattrs call (sequence reservation, attachment and revision
-		// body documents) run in its update callback, i.e. BEFORE the compare-and-swap write: order the classes
-		// accordingly (the call itself becomes the commit, placed at its end marker) and remap fault indexes.
-		var classes []string
-		remap := map[int]int{}
-		{
-			orig := 0
-			var pendingIdx []int
-			var pendingKey []string
+		classes, subOf, shapeSubs := c11Shape(marked)
+		if os.Getenv("C11_DEBUG") != "" {
+			fmt.Printf("== %s clean=%v\n", rq.kind, cleanErrs)
 			for _, m := range marked {
-				if strings.HasPrefix(m, "~end ") {
-					key := strings.TrimPrefix(m, "~end ")
-					for j := len(pendingKey) - 1; j >= 0; j-- {
-						if pendingKey[j] == key {
-							remap[pendingIdx[j]] = len(classes)
-							classes = append(classes, "Commit")
-							pendingIdx = append(pendingIdx[:j], pendingIdx[j+1:]...)
-							pendingKey = append(pendingKey[:j], pendingKey[j+1:]...)
-							break
-						}
-					}
-					continue
-				}
-				parts := strings.SplitN(m, " ", 2)
-				if parts[0] == "WriteUpdateWithXattrs" {
-					pendingIdx = append(pendingIdx, orig)
-					pendingKey = append(pendingKey, parts[1])
-				} else {
-					remap[orig] = len(classes)
-					classes = append(classes, c11Class(parts[0], parts[1]))
-				}
-				orig++
-			}
-			for _, pi := range pendingIdx { // no end marker seen (hooked path): keep in place at the end
-				remap[pi] = len(classes)
-				classes = append(classes, "Commit")
+				fmt.Printf("     %s\n", m)
 			}
 		}
-		commitIdx := -1
-		_ = commitIdx
+		if shapeSubs != nsub || len(classes) != len(trace) {
+			rec.Fail("harness_selfcheck", "trace-shape:"+rq.kind, map[string]any{"kind": rq.kind, "marked": marked, "sub_requests_in_trace": shapeSubs, "declared": nsub}, "the clean trace does not have the declared number of sub-requests")
+			continue
+		}
+		// which sub-requests succeed in the un-faulted run is what the model says about the clean trace (a segment
+		// without commit is a rejected write); the clean run must agree
+		hasCommit := make([]bool, nsub)
+		for i, c := range classes {
+			if c == "Commit" {
+				hasCommit[subOf[i]] = true
+			}
+		}
+		expectSuccess := true
+		for i := 0; i < nsub; i++ {
+			okClean, detail := rq.doneOf(e, id, i)
+			var cerr error
+			if rq.cont {
+				cerr = cleanErrs[i]
+			} else {
+				cerr = cleanErrs[0]
+			}
+			if !hasCommit[i] {
+				expectSuccess = false
+			}
+			if rq.cont || i == nsub-1 {
+				if hasCommit[i] != (cerr == nil) || hasCommit[i] != okClean {
+					rec.Fail("reported_success_durable", "clean-run-not-visible", map[string]any{"kind": rq.kind, "sub_request": i, "err": fmt.Sprint(cerr), "detail": detail, "has_commit": hasCommit[i]}, "un-faulted request did not succeed or is not visible")
+				}
+			} else if !okClean {
+				rec.Fail("reported_success_durable", "clean-run-not-visible", map[string]any{"kind": rq.kind, "sub_request": i, "detail": detail}, "un-faulted request: an earlier commit is not visible")
+			}
+		}
+		if rq.kind == "doc_rejected" && expectSuccess {
+			rec.Fail("harness_selfcheck", "trace-shape:"+rq.kind, map[string]any{"kind": rq.kind, "marked": marked}, "a rejected write has a commit operation in its clean trace")
+		}
+		if !multi {
+			c11Account(rec, e, rq.kind, "clean", -1, base0, cleanErrs[0])
+		} else {
+			e.ms.takeReleased()
+		}
 		rec.Size(fmt.Sprintf("%s:trace=%d", rq.kind, len(trace)))
-		rec.Sample(map[string]any{"kind": rq.kind, "trace": trace})
+		rec.Sample(map[string]any{"kind": rq.kind, "trace": trace, "classes": classes, "sub_request_of": subOf})
+
+		// the Coq rendering of the trace: one list (single commit) or one list per sub-request
+		segs := make([][]string, nsub)
+		for i, c := range classes {
+			segs[subOf[i]] = append(segs[subOf[i]], c)
+		}
+		var segStr []string
+		for _, sg := range segs {
+			segStr = append(segStr, "["+strings.Join(sg, "; ")+"]")
+		}
 
 		occOf := func(k int) int {
 			occ := 0
@@ -476,73 +1083,193 @@ func TestVerifC11(t *testing.T) {
 			e.n++
 			id := fmt.Sprintf("c11%s%d", rq.kind, e.n)
 			rq.setup(e, id)
-			keys := rq.primary(e, id)
-			pre := e.rawState(keys)
+			keys := make([][]string, nsub)
+			pre := make([]map[string]string, nsub)
+			var allKeys []string
+			for i := 0; i < nsub; i++ {
+				keys[i] = rq.keysOf(e, id, i)
+				pre[i] = e.rawState(keys[i], rq.noCas)
+				allKeys = append(allKeys, keys[i]...)
+			}
 			var targets []*c11Target
 			for _, k := range ks {
 				targets = append(targets, &c11Target{sig: c11OpSig(trace[k]), occ: occOf(k)})
 			}
 			base1 := e.db.sequences.last
 			e.ms.takeReleased()
-			setFail(arm(targets, mode))
-			err := rq.run(e, id)
-			setFail(nil)
-			post := e.rawState(keys)
-			unchanged := true
-			var changedKey string
-			for kk, v := range pre {
-				if post[kk] != v {
-					unchanged = false
-					changedKey = kk
+			started = !rq.cont
+			inner := arm(targets, mode)
+			e.fs.onMark = func(m string) {
+				if m == "~sub0" {
+					started = true
 				}
 			}
-			visible, det := rq.done(e, id)
-			result := "ok"
-			if err != nil {
-				result = "err"
+			setFail(func(op, key string) error {
+				if !started {
+					return nil
+				}
+				return inner(op, key)
+			})
+			if rq.hook != nil {
+				setHook(rq.hook(e, id))
 			}
-			state := "other"
-			switch {
-			case unchanged && !visible:
-				state = "unchanged"
-			case visible:
-				state = "committed"
-			}
+			errs := rq.exec(e, id)
+			setFail(nil)
+			setHook(nil)
+			e.fs.onMark = nil
 			// only the faults that actually fired are part of the case
 			var firedIdx []string
 			var firedOps []string
+			var firedCls []string
 			anyFired := false
 			for i, tg := range targets {
 				if tg.fired {
 					anyFired = true
-					firedIdx = append(firedIdx, fmt.Sprintf("%d%%nat", remap[ks[i]]))
+					firedIdx = append(firedIdx, fmt.Sprintf("%d%%nat", ks[i]))
 					firedOps = append(firedOps, trace[ks[i]])
+					firedCls = append(firedCls, classes[ks[i]])
 				}
 			}
-			in := map[string]any{"kind": rq.kind, "op_index": ks, "op": firedOps, "mode": mode, "result": result, "state": state, "error": fmt.Sprint(err)}
 			sigOps := ""
 			for _, o := range firedOps {
 				sigOps += ":" + c11OpSig(o)
 			}
-			if anyFired && err != nil && !unchanged && mode != "timeout" {
-				rec.Fail("fault_leaves_state_unchanged", "partial-effect:"+rq.kind+sigOps, in, "request failed but primary state changed ("+changedKey+")")
+			invalFired := false // a principal invalidation after the commit was failed (its failure is swallowed)
+			for _, c := range firedCls {
+				if c == "Inval" {
+					invalFired = true
+				}
 			}
-			if anyFired && err == nil && expectSuccess && !visible {
-				rec.Fail("reported_success_durable", "swallowed-failure:"+rq.kind+sigOps, in, "request reported success but its effect is not visible: "+det)
+			// ---- observation: per sub-request result and state ----
+			unchanged := make([]bool, nsub)
+			visible := make([]bool, nsub)
+			states := make([]string, nsub)
+			results := make([]error, nsub)
+			dets := make([]string, nsub)
+			changedKey := ""
+			for i := 0; i < nsub; i++ {
+				post := e.rawState(keys[i], rq.noCas)
+				unchanged[i] = true
+				for kk, v := range pre[i] {
+					if post[kk] != v {
+						unchanged[i] = false
+						changedKey = kk
+					}
+				}
+				visible[i], dets[i] = rq.doneOf(e, id, i)
+				if rq.cont {
+					results[i] = errs[i]
+				} else {
+					results[i] = errs[0]
+				}
+				switch {
+				case visible[i]:
+					states[i] = "committed"
+				case unchanged[i]:
+					states[i] = "unchanged"
+				case !rq.cont && i > 0 && visible[i-1] && rq.intactN != nil && rq.intactN(e, id, i):
+					states[i] = "unchanged" // exactly the earlier commits happened
+				case rq.core != nil && rq.core(e, id):
+					states[i] = "lost" // committed, but a follow-up that is part of the visible effect was lost
+				default:
+					states[i] = "other"
+				}
 			}
-			if !expectSuccess && err == nil {
-				rec.Fail("rejected_write_succeeded", "rejected-write-succeeded", in, "a rejected write returned success")
+			var resS, stS []string
+			for i := 0; i < nsub; i++ {
+				resS = append(resS, map[bool]string{true: "err", false: "ok"}[results[i] != nil])
+				stS = append(stS, states[i])
 			}
-			if mode != "timeout" && unchanged {
-				c11Account(rec, e, rq.kind, strings.Join(firedOps, "+")+"/"+mode, ks[0], base1, err)
+			in := map[string]any{"kind": rq.kind, "op_index": ks, "op": firedOps, "mode": mode, "result": strings.Join(resS, ","), "state": strings.Join(stS, ","), "error": fmt.Sprint(errs)}
+			// ---- monitors ----
+			// the sub-request a reported failure belongs to: itself (bulk), or the first one whose effect is not
+			// visible (a request whose failed sub-request aborts the rest reports one result for all of them)
+			for i := 0; i < nsub; i++ {
+				if !anyFired {
+					break
+				}
+				failedHere := results[i] != nil
+				if !rq.cont && failedHere {
+					first := nsub - 1
+					for j := 0; j < nsub; j++ {
+						if !visible[j] {
+							first = j
+							break
+						}
+					}
+					failedHere = i >= first
+				}
+				if failedHere && states[i] != "unchanged" && mode != "timeout" {
+					sg := "partial-effect:" + rq.kind + sigOps
+					if multi {
+						sg = fmt.Sprintf("partial-effect:%s#%d%s", rq.kind, i, sigOps)
+					}
+					rec.Fail("fault_leaves_state_unchanged", sg, in, "request failed but primary state changed ("+changedKey+")")
+				}
+				if results[i] == nil && hasCommit[i] && !visible[i] {
+					sg := "swallowed-failure:" + rq.kind + sigOps
+					if invalFired && states[i] == "lost" {
+						sg = "swallowed-failure:principal-invalidation-after-commit"
+					} else if multi {
+						sg = fmt.Sprintf("swallowed-failure:%s#%d%s", rq.kind, i, sigOps)
+					}
+					rec.Fail("reported_success_durable", sg, in, "request reported success but its effect is not visible: "+dets[i])
+				}
+				if !hasCommit[i] && results[i] == nil && (rq.cont || i == nsub-1) {
+					rec.Fail("rejected_write_succeeded", "rejected-write-succeeded", in, "a rejected write returned success")
+				}
+			}
+			// ---- sequences ----
+			if !multi {
+				if mode != "timeout" && unchanged[0] {
+					c11Account(rec, e, rq.kind, strings.Join(firedOps, "+")+"/"+mode, ks[0], base1, errs[0])
+				} else {
+					e.ms.takeReleased()
+				}
 			} else {
-				e.ms.takeReleased()
+				anyErr := false
+				for _, r := range results {
+					if r != nil {
+						anyErr = true
+					}
+				}
+				released := map[uint64]bool{}
+				for _, r := range e.ms.takeReleased() {
+					released[r] = true
+				}
+				releaseFaulted := false // the fault hit the publication of an unused sequence itself
+				for _, o := range firedOps {
+					if strings.Contains(o, "unusedSeq") {
+						releaseFaulted = true
+					}
+				}
+				if mode != "timeout" && anyErr && !releaseFaulted {
+					used := e.seqsOnDocs(allKeys)
+					for s := base1 + 1; s <= e.db.sequences.last; s++ {
+						if !released[s] && !used[s] {
+							rec.Fail("failed_request_releases_sequences", "sequence-leak:"+rq.kind, map[string]any{"kind": rq.kind, "fault": strings.Join(firedOps, "+") + "/" + mode, "op_index": ks, "sequence": s - base1, "error": fmt.Sprint(errs)},
+								"a sub-request failed but a sequence the request reserved is neither on a stored document nor published as unused")
+							break
+						}
+					}
+				}
 			}
-			cls := "[" + strings.Join(classes, "; ") + "]"
-			coq := fmt.Sprintf("CFault %s [%s] %s %s %s %s", cls, strings.Join(firedIdx, "; "), cqBool(mode == "cas"), cqBool(expectSuccess), map[string]string{"ok": "ROk", "err": "RErr"}[result],
-				map[string]string{"unchanged": "SUnchanged", "committed": "SCommitted", "other": "SOther"}[state])
+			// ---- the Coq case ----
+			var coq string
+			if !multi {
+				coq = fmt.Sprintf("CFault %s [%s] %s %s %s %s", segStr[0], strings.Join(firedIdx, "; "), cqBool(mode == "cas"), cqBool(expectSuccess), resName[results[0] != nil], stName[states[0]])
+			} else {
+				var rs, ss []string
+				for i := 0; i < nsub; i++ {
+					if rq.cont || i == 0 {
+						rs = append(rs, resName[results[i] != nil])
+					}
+					ss = append(ss, stName[states[i]])
+				}
+				coq = fmt.Sprintf("CMulti %s [%s] [%s] [%s] [%s]", cqBool(rq.cont), strings.Join(segStr, "; "), strings.Join(firedIdx, "; "), strings.Join(rs, "; "), strings.Join(ss, "; "))
+			}
 			rec.Case(stream, rq.kind, coq, in, anyFired)
-			rec.Err(rq.kind + ":" + mode + ":" + result + "/" + state)
+			rec.Err(rq.kind + ":" + mode + ":" + strings.Join(resS, ",") + "/" + strings.Join(stS, ","))
 		}
 		// ---- every single fault ----
 		for k := range trace {
@@ -554,12 +1281,24 @@ func TestVerifC11(t *testing.T) {
 				runFaulted([]int{k}, mode, "single_fault")
 			}
 		}
-		// ---- pairs of faults: all pairs in the thorough tier, the pairs that start with a tolerated operation
-		// (read / best effort) or lie after the commit in the quick tier ----
+		// ---- pairs of faults: all pairs in the thorough tier; in the quick tier the pairs that start with a tolerated
+		// operation (read / best effort / swallowed follow-up), the pairs that lie after the commit, and the pairs of
+		// operations in two different sub-requests ----
+		lastCommit := make([]int, nsub)
+		for i := range lastCommit {
+			lastCommit[i] = -1
+		}
+		for i, c := range classes {
+			if c == "Commit" {
+				lastCommit[subOf[i]] = i
+			}
+		}
 		for i := range trace {
 			for j := i + 1; j < len(trace); j++ {
-				ci, cj := classes[remap[i]], classes[remap[j]]
-				interesting := ci == "Read" || ci == "Opt" || (ci != "Commit" && cj != "Commit" && remap[i] > 0 && classes[remap[i]-1] == "Commit")
+				ci, cj := classes[i], classes[j]
+				afterCommit := func(x int) bool { lc := lastCommit[subOf[x]]; return lc >= 0 && x > lc }
+				interesting := ci == "Read" || ci == "Opt" || ci == "Inval" || (afterCommit(i) && afterCommit(j) && subOf[i] == subOf[j]) ||
+					(subOf[i] != subOf[j] && ci != "Read" && cj != "Read")
 				if vThorough() || interesting {
 					runFaulted([]int{i, j}, "error", "fault_pair")
 				}
@@ -589,6 +1328,8 @@ func c11OpSig(tr string) string {
 		key = "unusedSeq"
 	case strings.Contains(key, "_sync:seq"):
 		key = "seq"
+	case strings.HasSuffix(key, ".2"):
+		key = "doc2" // the second document of a bulk write
 	default:
 		key = "doc"
 	}
